@@ -76,6 +76,22 @@ type L5Result struct {
 	Failures []L5Failure    `json:"failures"`
 	Attempts int            `json:"attempts"`
 	WallMs   int            `json:"wall_ms"`
+	// startup: the distinct observations `w= r= n= cap= k= [p=]` (flags of Go, accepted packets, queue capacity, sent
+	// counter right after Close returned, packets the peer read up to end-of-stream) -> number of trials; the
+	// harness asks the start-up LTS (Model/ConnStart.lean, op `startup` of Drv/C03.lean) to explain each of them
+	Startup map[string]int `json:"startup,omitempty"`
+}
+
+func (res *L5Result) startupObs(flag string, n, qcap int, k int64, p int) {
+	if res.Startup == nil {
+		res.Startup = map[string]int{}
+	}
+	b := map[bool]int{true: 1}
+	key := fmt.Sprintf("w=%d r=%d n=%d cap=%d k=%d", b[flag != "r"], b[flag != "w"], n, qcap, k)
+	if p >= 0 {
+		key += fmt.Sprintf(" p=%d", p)
+	}
+	res.Startup[key]++
 }
 
 func IsL5Child() bool { return os.Getenv("HX_L5_CHILD") != "" }
@@ -912,6 +928,7 @@ func l5StartupTrial(R *hxlib.Rand, c L5Case, trial int, res *L5Result) bool {
 		return true
 	}
 	if sentAtRet < int64(n) {
+		res.startupObs(c.Flag, n, qcap, sentAtRet, -1)
 		res.fail(c, false, "close:returned-before-flush", "%s: Close returned with %d packets written, but %d had been accepted before it was called", ctx, sentAtRet, n)
 		return false
 	}
@@ -922,6 +939,9 @@ func l5StartupTrial(R *hxlib.Rand, c L5Case, trial int, res *L5Result) bool {
 		c.Dump = dump
 		res.fail(c, true, "hang:peer-sees-no-end-of-stream", "%s: Close returned, but 5 s later the peer had not seen the stream end", ctx)
 		return false
+	}
+	if pr.eof {
+		res.startupObs(c.Flag, n, qcap, sentAtRet, len(pr.ids))
 	}
 	if !pr.eof {
 		res.fail(c, false, "delivery:lost-at-close", "%s: the peer's stream broke off with %q after %d of %d accepted packets", ctx, pr.err, len(pr.ids), n)
